@@ -72,6 +72,35 @@ def main():
     lin = [{"kind": "loc", "state": "linear", "locs": ["a"], "ops": copy.deepcopy(o)} for o in opss]
     impl, model, mc = lr.run(idx + lin, nontrivial=lambda c: any(o["op"] == "search" for o in c["ops"]))
     lr.cross_states(idx, lin, impl[:n], impl[n:])
+    # unit-level tie: ExtractTerms and TermIndex against the model's extractTerms / TI
+    nu = 1500 if not ck.thorough else 30000
+    tcases, xcases = [], []
+    rng = ck.rng
+    for _ in range(nu):
+        d = gen.data(rng, depth=rng.randint(1, 4), width=rng.randint(1, 4))
+        r = rng.random()
+        if r < 0.2: d["x!"] = gen.data(rng, 1, 2, top_map=False)
+        elif r < 0.35: d["rule"] = gen.data(rng, 2, 2)
+        elif r < 0.45: d = gen.pattern_from(rng, d, allow_optional=True, allow_propvar=True)
+        elif r < 0.5: d["big"] = "B" * rng.choice([1023, 1024, 1025])
+        tcases.append({"kind": "terms", "doc": d})
+        terms = ["t1", "t2", "t3", "t4"]; ids = ["i1", "i2", "i3"]
+        ops = []
+        for _ in range(rng.randint(3, 14)):
+            z = rng.random()
+            if z < 0.5: ops.append({"op": "add", "term": rng.choice(terms), "id": rng.choice(ids)})
+            elif z < 0.7: ops.append({"op": "rem", "term": rng.choice(terms), "id": rng.choice(ids)})
+            else: ops.append({"op": "search", "terms": rng.sample(terms, rng.randint(0, 3))})
+        xcases.append({"kind": "tidx", "ops": ops})
+    for cases_, tag in ((tcases, "terms"), (xcases, "tidx")):
+        a = run_cases(lr.drv, cases_); b = run_cases(lr.mdl, cases_)
+        for c, x, y in zip(cases_, a, b):
+            ck.count(c)
+            lr.stats[tag + "_cases"] += 1
+            if canon(x) != canon(y):
+                ck.violation("correspondence broken: core.%s and the Lean model disagree: impl=%s model=%s" % ("ExtractTerms" if tag == "terms" else "TermIndex", canon(x)[:300], canon(y)[:300]),
+                             {"case": c, "impl": x, "model": y}, tag=tag)
+                break
     for c in idx[:2]:
         ck.sample({"state": c["state"], "ops": c["ops"][:6]})
     lr.finish_cov("histories of AddFact/RemFact/GetFact/SearchFacts over 5 ids (plus generated ids and property facts) on one location, each run under "
